@@ -5,7 +5,9 @@ package main
 // text the Lean driver parses.
 //
 // Names.  Path elements are small integers in the protocol and fixed strings on disk:
-//   1 = "t.test", 2 = "a", 3 = "b", 4 = "c", 5 = "n", 6 = "x", 7 = "y", 8 = "m", 9 = "u.test", 10 = "d", 11 = "strings"
+//   1 = "a", 2 = "b", 3 = "c", 4 = "d", 5 = "m", 6 = "n", 8 = "t.test", 9 = "u.test", 10 = "x", 11 = "y"
+// (numeric order = string order, so the model can sort import paths the way the code sorts
+// their spellings); 0 = "strings" stands for a standard-library package.
 // A module path is base@vMAJOR; a version of it is a rank r >= 2 standing for
 //   v<MAJOR>.<r/2>.0        (r odd)      v<MAJOR>.<r/2>.0-pre   (r even)
 // so that rank order is semver order inside one major and "is a pre-release" is "r even".
@@ -17,7 +19,7 @@ import (
 	"testing/fstest"
 )
 
-var c17Elems = []string{"", "t.test", "a", "b", "c", "n", "x", "y", "m", "u.test", "d", "strings"}
+var c17Elems = []string{"strings", "a", "b", "c", "d", "m", "n", "-unused-", "t.test", "u.test", "x", "y"}
 
 type c17Path []int
 
@@ -53,7 +55,7 @@ func c17ParsePath(s string) c17Path {
 	var p c17Path
 	for _, e := range strings.Split(s, "/") {
 		for i, n := range c17Elems {
-			if i > 0 && n == e {
+			if n == e {
 				p = append(p, i)
 			}
 		}
@@ -286,17 +288,17 @@ func (u *c17Universe) shuffled(r *Rng) *c17Universe {
 
 // module bases (nested ones on purpose: a package path can lie inside several of them)
 var c17Bases = []c17Path{
-	{1, 2},    // t.test/a
-	{1, 2, 5}, // t.test/a/n
-	{1, 3},    // t.test/b
-	{1, 4},    // t.test/c
-	{9, 10},   // u.test/d
-	{1},       // t.test       (its root directory is not importable: "t.test" is no identifier)
-	{1, 8},    // t.test/m     (usual main module)
+	{8, 1},    // t.test/a
+	{8, 1, 6}, // t.test/a/n
+	{8, 2},    // t.test/b
+	{8, 3},    // t.test/c
+	{9, 4},    // u.test/d
+	{8},       // t.test       (its root directory is not importable: "t.test" is no identifier)
+	{8, 5},    // t.test/m     (usual main module)
 }
 
 // package directories relative to a base
-var c17Rel = []c17Path{{}, {6}, {7}, {5}, {5, 6}, {6, 7}, {2}, {2, 6}, {2, 5}, {3}}
+var c17Rel = []c17Path{{}, {10}, {11}, {6}, {6, 10}, {10, 11}, {1}, {1, 10}, {1, 6}, {2}}
 
 func c17GenUniverse(r *Rng, maxMods, maxVers int) *c17Universe {
 	u := &c17Universe{}
@@ -377,7 +379,7 @@ func c17GenUniverse(r *Rng, maxMods, maxVers int) *c17Universe {
 		if !ok {
 			pk = genPkgs(m.base, 1+r.Intn(3))
 			if len(pk) == 0 {
-				pk = []c17Pkg{{Path: append(append(c17Path{}, m.base...), 6)}}
+				pk = []c17Pkg{{Path: append(append(c17Path{}, m.base...), 10)}}
 			}
 			basePk[k] = pk
 		} else if r.Chance(1, 6) { // a version with one package more or fewer
@@ -403,7 +405,7 @@ func c17GenUniverse(r *Rng, maxMods, maxVers int) *c17Universe {
 	}
 	u.Main = c17Mod{Base: mainBase, Major: mainMajor, Pkgs: genPkgs(mainBase, 1+r.Intn(3))}
 	if len(u.Main.Pkgs) == 0 {
-		u.Main.Pkgs = []c17Pkg{{Path: append(append(c17Path{}, mainBase...), 6)}}
+		u.Main.Pkgs = []c17Pkg{{Path: append(append(c17Path{}, mainBase...), 10)}}
 	}
 	for _, p := range u.Main.Pkgs {
 		if r.Chance(1, 3) {
@@ -412,12 +414,12 @@ func c17GenUniverse(r *Rng, maxMods, maxVers int) *c17Universe {
 	}
 	genImp := func() c17Imp {
 		if r.Chance(1, 25) {
-			return c17Imp{Path: c17Path{11}, Major: -1} // standard library
+			return c17Imp{Path: c17Path{0}, Major: -1} // standard library
 		}
 		pv := Pick(r, pool)
 		p := pv.path
 		if noisy && r.Chance(1, 8) { // a package nobody provides
-			p = append(append(c17Path{}, p...), 7)
+			p = append(append(c17Path{}, p...), 11)
 		}
 		major := -1
 		if r.Chance(1, 3) {
@@ -485,11 +487,19 @@ func c17GenUniverse(r *Rng, maxMods, maxVers int) *c17Universe {
 	return u
 }
 
+// c17SortDeps sorts by the spelling of the module path (= numeric order of the elements,
+// a shorter path first, then the major version), the order the model prints.
 func c17SortDeps(ds []c17Dep) {
 	sort.Slice(ds, func(i, j int) bool {
 		a, b := ds[i], ds[j]
-		if as, bs := a.Base.String(), b.Base.String(); as != bs {
-			return as < bs
+		for k := 0; k < len(a.Base) && k < len(b.Base); k++ {
+			if a.Base[k] != b.Base[k] {
+				return a.Base[k] < b.Base[k]
+			}
+		}
+		if len(a.Base) != len(b.Base) {
+			// "t.test/a@v0" < "t.test@v0" ('/' < '@'): the longer path first
+			return len(a.Base) > len(b.Base)
 		}
 		return a.Major < b.Major
 	})
